@@ -511,5 +511,62 @@ func isSuccessReturn(ins ssa.Instruction) bool {
 	if definitelyNonNilAt(v, ins) {
 		return false
 	}
+	// `return abandon(err)`: a helper or closure that hands back the error it was given
+	if fw := forwardedErr(v); fw != nil && (!mayBeNilError(fw, map[ssa.Value]bool{}) || definitelyNonNilAt(fw, ins)) {
+		return false
+	}
 	return true
+}
+
+// forwardedErr: v is the error result of a call of a function with a body (a helper of the program or a closure) each
+// of whose returns answers with one and the same of its parameters, or with an error that is never nil: the argument
+// passed for that parameter (the result is non-nil whenever that argument is); nil otherwise.
+func forwardedErr(v ssa.Value) ssa.Value {
+	var call *ssa.Call
+	ridx := 0
+	switch x := v.(type) {
+	case *ssa.Call:
+		call = x
+	case *ssa.Extract:
+		call, _ = x.Tuple.(*ssa.Call)
+		ridx = x.Index
+	}
+	if call == nil || call.Call.IsInvoke() {
+		return nil
+	}
+	g := call.Call.StaticCallee()
+	if g == nil || len(g.Blocks) == 0 || errResultIndex(g.Signature) != ridx {
+		return nil
+	}
+	pi := -1
+	for _, b := range g.Blocks {
+		if len(b.Instrs) == 0 || b == g.Recover {
+			continue
+		}
+		ret, ok := b.Instrs[len(b.Instrs)-1].(*ssa.Return)
+		if !ok {
+			continue
+		}
+		rv := cellValue(retOperand(ret, ridx))
+		if pr, isParam := rv.(*ssa.Parameter); isParam {
+			k := -1
+			for i, q := range g.Params {
+				if q == pr {
+					k = i
+				}
+			}
+			if k < 0 || (pi >= 0 && pi != k) {
+				return nil
+			}
+			pi = k
+			continue
+		}
+		if mayBeNilError(rv, map[ssa.Value]bool{}) {
+			return nil
+		}
+	}
+	if pi < 0 || pi >= len(call.Call.Args) {
+		return nil
+	}
+	return call.Call.Args[pi]
 }
